@@ -358,5 +358,92 @@ Proof.
   all: try (destruct (p_abort _ I _ _ Hin) as [(? & ? & ?) ?]).
   all: norm; try (split; [eexists; split; [reflexivity|]; proj_simpl; first [assumption|reflexivity]|first [assumption|reflexivity]]; fail).
   all: try (split; [eauto|first [assumption|reflexivity]]; fail).
+Qed.
+
+Lemma inv_pool_step g st l st' : inv_pool st -> step g st l = Some st' -> inv_pool st'.
+Proof.
+  intros I H. split.
+  - apply (pool_pool_preserved g st l st' I H).
+  - apply (pool_sock_preserved g st l st' I H).
+  - apply (pool_thr_preserved g st l st' I H).
+  - apply (pool_abort_preserved g st l st' I H).
+Qed.
+
+Lemma inv_pool_init ts : inv_pool (init ts).
+Proof.
+  split; cbn.
+  - discriminate.
+  - intros c cn H. destruct c; discriminate.
+  - intros c cn e H. destruct c; discriminate.
+  - intros c e [].
+Qed.
+
+Lemma inv_pool_run g : forall tr st st', inv_pool st -> run g st tr = Some st' -> inv_pool st'.
+Proof.
+  induction tr as [|l tr IH]; intros st st' I H; cbn [run] in H.
+  - inversion H; subst. exact I.
+  - destruct (step g st l) as [st1|] eqn:E; [|discriminate]. apply (IH st1 st' (inv_pool_step _ _ _ _ I E) H).
+Qed.
+
+(* a connection shows a sign of failure handling: the client closed its socket, cancelled the
+   context of its goroutines, one of its goroutines is past onExit, or Abort is closing it *)
+Definition failed_conn (st : state) (c : nat) (cn : conn) : Prop :=
+  ksock cn = true \/ kcancel cn = true \/
+  (exists e, (ksender cn = SExit e \/ kreceiver cn = RExit e) /\ past_onexit e = true) \/
+  (exists e, In (c, e) (aborters st)).
+
+(* C10_usable_after_failure *)
+Theorem usable_after_failure : forall g ts tr st, run g (init ts) tr = Some st ->
+  forall c cn, nth_error (conns st) c = Some cn -> failed_conn st c cn ->
+  (* the failed connection is no longer pooled *)
+  pool st <> Some c /\
+  (* so a later call that finds a pooled connection finds another one *)
+  (forall k st', step g st (LGetConn k) = Some st' ->
+     exists cl c' i, nth_error (callers st') k = Some cl /\ pc cl = CAlloc c' i /\ c' <> c) /\
+  (* and one that finds none dials: a brand-new connection with its own Send and Receive *)
+  (forall k st', step g st (LDial k) = Some st' ->
+     exists cl i, nth_error (callers st') k = Some cl /\ pc cl = CAlloc (length (conns st)) i /\
+                  length (conns st) <> c /\
+                  nth_error (conns st') (length (conns st)) = Some (with_counter 1 new_conn) /\
+                  pool st' = Some (length (conns st))).
+Proof.
+  intros g ts tr st H c cn Hc Hf. pose proof (inv_pool_run g tr _ _ (inv_pool_init ts) H) as I.
+  assert (Hu : kunpooled cn = true).
+  { destruct Hf as [Hf|[Hf|[(e & Ht & Hp)|(e & Hin)]]].
+    - apply (proj1 (p_sock _ I _ _ Hc) Hf).
+    - apply (proj2 (p_sock _ I _ _ Hc) Hf).
+    - apply (p_thr _ I _ _ e Hc Ht Hp).
+    - destruct (p_abort _ I _ _ Hin) as [(cn' & Hc' & Hu) _]. congruence. }
+  assert (Hpool : pool st <> Some c).
+  { intros Hp. destruct (p_pool _ I _ Hp) as (cn' & Hc' & Hu'). congruence. }
+  split; [exact Hpool|]. split.
+  - intros k st' Hs. cbn [step] in Hs.
+    destruct (nth_error (callers st) k) as [cl|] eqn:Ek; [|discriminate].
+    destruct (pool st) as [c'|] eqn:Ep; [|discriminate].
+    destruct (pc cl) eqn:Epc; try discriminate.
+    destruct (nth_error (conns st) c') as [cn'|] eqn:Ec'; [|discriminate].
+    inversion Hs; subst st'. proj_simpl. rewrite nth_upd, Nat.eqb_refl, Ek.
+    eexists _, c', _. split; [reflexivity|]. split; [reflexivity|]. congruence.
+  - intros k st' Hs. cbn [step] in Hs.
+    destruct (nth_error (callers st) k) as [cl|] eqn:Ek; [|discriminate].
+    destruct (pool st) as [c'|] eqn:Ep; [discriminate|].
+    destruct (pc cl) eqn:Epc; try discriminate.
+    inversion Hs; subst st'. proj_simpl. rewrite nth_upd, Nat.eqb_refl, Ek, nth_app_one, Nat.eqb_refl.
+    eexists _, _. split; [reflexivity|]. split; [reflexivity|]. split; [|split; reflexivity].
+    pose proof (nth_some_lt _ _ _ Hc). lia.
+Qed.
+
+(* ------------------------------------------------------------------ C10_prompt_on_close *)
+Definition clean_ok (st : state) : Prop :=
+  forall c cn, nth_error (conns st) c = Some cn -> kcleaned cn = true -> ktab cn = [].
+
+Lemma clean_ok_step g st l st' :
+  clean_ok st -> no_late_store_step st l = true -> step g st l = Some st' -> clean_ok st'.
+Proof.
+  intros I G H. unfold clean_ok in *. destruct l; try destruct w; step_cases' H; intros xc xcn Hc Hk; unfold exit_update in *; norm.
+  all: try (apply (I _ _ Hc Hk); fail).
+  all: try (match goal with E : nth_error (conns _) _ = Some ?cn |- _ => rewrite (I _ _ E Hk); reflexivity end; fail).
+  all: try reflexivity.
+  all: try assumption.
   Show.
 Abort.
